@@ -278,6 +278,82 @@ func genC19(c *Ctx, r *rng.R, i int) {
 			}
 		}
 	}
+	// replacing a member on the way down (Transformer.Enter) by a value of another shape: the descent follows what
+	// Enter returned, the result holds exactly that value, the rest is undisturbed
+	{
+		var free []visit
+		for _, x := range vs {
+			ok := true
+			for _, st := range x.p {
+				if _, isAttr := st.(cty.GetAttrStep); !isAttr {
+					ok = false
+				}
+			}
+			if ok {
+				free = append(free, x)
+			}
+		}
+		tgt := free[r.Intn(len(free))]
+		shapes := []cty.Value{
+			cty.ObjectVal(map[string]cty.Value{"n1": cty.StringVal("new"), "n2": cty.ListVal([]cty.Value{cty.True, cty.False})}),
+			cty.TupleVal([]cty.Value{cty.NumberIntVal(7), cty.MapVal(map[string]cty.Value{"k": cty.StringVal("v")})}),
+			cty.MapVal(map[string]cty.Value{"a": cty.Zero, "b": cty.NumberIntVal(1)}),
+			cty.StringVal("leaf"), cty.EmptyObjectVal, cty.NullVal(cty.DynamicPseudoType),
+		}
+		repl := shapes[r.Intn(len(shapes))]
+		if ut, _ := tgt.v.Unmark(); ut.Type().IsObjectType() && r.Bool() && ut.IsKnown() && !ut.IsNull() {
+			// the same object widened by one attribute
+			m := ut.AsValueMap()
+			if m == nil {
+				m = map[string]cty.Value{}
+			}
+			m["zz_added"] = cty.StringVal("extra")
+			repl = cty.ObjectVal(m)
+		}
+		var nv cty.Value
+		var exited []cty.Path
+		tr := &enterReplacer{at: tgt.p, with: repl, exited: &exited}
+		pn, _ := recovered(func() { nv, err = cty.TransformWithTransformer(v, tr) })
+		rd := map[string]interface{}{"v": cq.Show(v), "path": showPath(tgt.p), "replacement": cq.Show(repl)}
+		c.Count("oracle_evals")
+		if pn || err != nil {
+			c.Fail("C19/enter-replace", fmt.Sprintf("TransformWithTransformer failed (panic=%v err=%v)", pn, err), rd)
+		} else {
+			got, e2 := tgt.p.Apply(nv)
+			if e2 != nil || !got.RawEquals(repl.WithMarks(containerMarks(v, tgt.p))) {
+				c.Fail("C19/enter-replace", "the value Enter returned is not what the result holds at "+showPath(tgt.p)+": "+cq.Show(got), rd)
+			}
+			for _, x := range vs {
+				if x.p.HasPrefix(tgt.p) || tgt.p.HasPrefix(x.p) || pathThroughSet(v, x.p) {
+					continue
+				}
+				g2, e3 := x.p.Apply(nv)
+				orig, _ := x.p.Apply(v)
+				if e3 != nil || !g2.RawEquals(orig) {
+					c.Fail("C19/replace-disturbs", fmt.Sprintf("replacing %s on the way down changed the member at %s", showPath(tgt.p), showPath(x.p)), rd)
+					break
+				}
+			}
+			// below the replaced member the walk visits the members of the replacement
+			var want []string
+			for _, x := range walkAll(repl) {
+				if len(x.p) > 0 {
+					want = append(want, genKey(append(tgt.p.Copy(), x.p...)))
+				}
+			}
+			var gotBelow []string
+			for _, q := range exited {
+				if q.HasPrefix(tgt.p) && len(q) > len(tgt.p) {
+					gotBelow = append(gotBelow, genKey(q))
+				}
+			}
+			sort.Strings(want)
+			sort.Strings(gotBelow)
+			if len(tgt.p) > 0 && strings.Join(want, "|") != strings.Join(gotBelow, "|") {
+				c.Fail("C19/enter-replace", fmt.Sprintf("below the replaced member %d members were visited, the replacement has %d", len(gotBelow), len(want)), rd)
+			}
+		}
+	}
 	// marks by path: remove and re-apply
 	uv, pvm := v.UnmarkDeepWithPaths()
 	pmItems := make([]string, len(pvm))
@@ -503,3 +579,23 @@ func c19Builders(c *Ctx, r *rng.R) {
 	a, b := all[r.Intn(len(all))], all[r.Intn(len(all))]
 	c.Add("patheq/built", fmt.Sprintf("K19_patheq %s %s %s %s", a.term, b.term, cq.Bool(a.p.Equals(b.p)), cq.Bool(a.p.HasPrefix(b.p))), map[string]string{"a": a.show, "b": b.show}, true)
 }
+
+// enterReplacer replaces the member at one path when the walk enters it and records what is visited
+type enterReplacer struct {
+	at     cty.Path
+	with   cty.Value
+	exited *[]cty.Path
+}
+
+func (t *enterReplacer) Enter(p cty.Path, v cty.Value) (cty.Value, error) {
+	if p.Equals(t.at) {
+		return t.with, nil
+	}
+	return v, nil
+}
+func (t *enterReplacer) Exit(p cty.Path, v cty.Value) (cty.Value, error) {
+	*t.exited = append(*t.exited, p.Copy())
+	return v, nil
+}
+
+func genKey(p cty.Path) string { return fmt.Sprintf("%#v", p) + "/" }
